@@ -1,72 +1,109 @@
 #!/usr/bin/env python3
 """
-./seedtest.py <seed-dir> [--checks C01,C02,...] [--tier quick]
+./seedtest.py [--checks C01,C02] [--tier quick] [--jobs N] <seed-dir>...
 
-Applies seeded/<id>/patch.diff to /repo, confirms that the repository's own tests still pass and that the
-demonstration fails with the change, runs the given checks (default: the property named in meta.json),
-and ALWAYS restores /repo (git checkout -- . and removal of the demo file). Prints which checks raised a
-VIOLATION. Used only while developing the checks; nothing here is registered in MANIFEST.json.
+Developer tool (not registered in MANIFEST.json): runs checks against seeded changes of koykov/dyntpl.
+
+For every seed directory (patch.diff, demo_test.go, meta.json) it makes a scratch copy of /repo under
+/tmp/seedns/<name>/, applies the patch THERE, and runs everything in a private mount namespace in which the
+scratch copy is bind-mounted over /repo (and private directories over /verif/evidence, /verif/replays and
+/verif/.work), so the checks run exactly as registered ("./check <ID> --tier quick", building from /repo)
+while the real /repo and the real evidence files are never touched, and several seeds can run in parallel.
+Confirms: the repository's own test suite passes with the patch, the demonstration fails with it and passes
+without it. Prints one JSON object per seed; scratch copies are removed afterwards.
+
+Seeds whose check regenerates Lean sources from /repo (C06: the extractor writes lean/DyntplV/Generated)
+share the Lean build directory and must not run in parallel with anything: use --jobs 1 for them.
 """
-import sys, os, json, subprocess, shutil
+import sys, os, json, subprocess, shutil, concurrent.futures
 
 ENV = dict(os.environ, GOFLAGS="-mod=mod", GOPROXY="off", GOSUMDB="off", GOTOOLCHAIN="local")
+BASE = "/tmp/seedns"
 
 
-def sh(cmd, cwd=None, timeout=3600):
-    p = subprocess.run(cmd, cwd=cwd, env=ENV, stdout=subprocess.PIPE, stderr=subprocess.STDOUT, text=True, timeout=timeout)
-    return p.returncode, p.stdout
+def sh(cmd, cwd=None, timeout=7200, env=None):
+    p = subprocess.run(cmd, cwd=cwd, env=env or ENV, stdout=subprocess.PIPE, stderr=subprocess.STDOUT, text=True, timeout=timeout)
+    return p.returncode, "\n".join(l for l in p.stdout.splitlines() if "conda.cli" not in l)
+
+
+def in_ns(scr, script, env=None):
+    mounts = (f"mount --bind {scr}/repo /repo && mount --bind {scr}/ev /verif/evidence && "
+              f"mount --bind {scr}/rp /verif/replays && mount --bind {scr}/work /verif/.work && ")
+    return sh(["unshare", "-m", "sh", "-c", mounts + script], env=env)
+
+
+def one(d, checks, tier):
+    d = os.path.abspath(d)
+    name = os.path.basename(d)
+    meta = json.load(open(os.path.join(d, "meta.json")))
+    prop = meta["property"]
+    checks = checks or [prop]
+    scr = os.path.join(BASE, name)
+    shutil.rmtree(scr, ignore_errors=True)
+    for sub in ("ev", "rp", "work"):
+        os.makedirs(os.path.join(scr, sub))
+    res = {"seed": name, "property": prop}
+    try:
+        sh(["cp", "-r", "/repo", os.path.join(scr, "repo")])
+        sh(["git", "-C", os.path.join(scr, "repo"), "checkout", "--", "."])
+        has_demo = os.path.exists(os.path.join(d, "demo_test.go"))
+        if has_demo:
+            shutil.copy(os.path.join(d, "demo_test.go"), os.path.join(scr, "repo", "zz_mutdemo_test.go"))
+            rc, out = in_ns(scr, "cd /repo && go test -vet=off -count=1 -run TestMutDemo . 2>&1 | tail -5")
+            res["demo_passes_without_patch"] = "ok  " in out and "FAIL" not in out
+        rc, out = sh(["git", "-C", os.path.join(scr, "repo"), "apply", os.path.join(d, "patch.diff")])
+        if rc != 0:
+            res["error"] = "patch does not apply: " + out[-300:]
+            return res
+        if has_demo:
+            rc, out = in_ns(scr, "cd /repo && go test -vet=off -count=1 -run TestMutDemo . 2>&1 | tail -5")
+            res["demo_fails_with_patch"] = "FAIL" in out
+            os.remove(os.path.join(scr, "repo", "zz_mutdemo_test.go"))
+        rc, out = in_ns(scr, "cd /repo && go test -mod=mod -vet=off -count=1 ./... 2>&1 | tail -3")
+        res["suite_passes_with_patch"] = "FAIL" not in out and "ok  " in out
+        caught = {}
+        for c in checks:
+            e = dict(ENV, VERIF_TIER=tier)
+            rc, out = in_ns(scr, f"cd /verif && ./check {c} --tier {tier}; echo CHECK_RC=$?", env=e)
+            v = [l for l in out.splitlines() if l.startswith("VIOLATION")]
+            k = [l for l in out.splitlines() if l.startswith("KNOWN-FINDING")]
+            rcl = [l for l in out.splitlines() if l.startswith("CHECK_RC=")]
+            first = ""
+            if v:
+                rp = v[0].split("replay=")[1].split()[0]
+                try:
+                    first = json.dumps(json.load(open(os.path.join(scr, "rp", os.path.basename(rp)))))[:600]
+                except Exception as ex:
+                    first = v[0]
+            caught[c] = {"rc": int(rcl[-1].split("=")[1]) if rcl else -1, "violations": len(v), "known": len(k),
+                         "no_failing_input": any("no-failing-input-found" in l for l in v), "first": first,
+                         "internal": [l for l in out.splitlines() if l.startswith("INTERNAL-ERROR")][:2]}
+        res["checks"] = caught
+    finally:
+        shutil.rmtree(scr, ignore_errors=True)
+    return res
 
 
 def main():
-    d = os.path.abspath(sys.argv[1])
-    tier = "quick"
-    checks = None
-    a = sys.argv[2:]
+    tier, checks, jobs, dirs = "quick", None, 4, []
+    a = sys.argv[1:]
     while a:
         if a[0] == "--checks":
             checks = a[1].split(","); a = a[2:]
         elif a[0] == "--tier":
             tier = a[1]; a = a[2:]
+        elif a[0] == "--jobs":
+            jobs = int(a[1]); a = a[2:]
         else:
-            a = a[1:]
-    meta = json.load(open(os.path.join(d, "meta.json")))
-    prop = meta["property"]
-    checks = checks or [prop]
-    rc, out = sh(["git", "-C", "/repo", "status", "--short"])
-    if out.strip():
-        print("refusing: /repo is not clean:\n" + out); return 2
-    res = {"seed": os.path.basename(d), "property": prop}
-    demo = os.path.join("/repo", "zz_mutdemo_test.go")
+            dirs.append(a[0]); a = a[1:]
+    os.makedirs(BASE, exist_ok=True)
+    with concurrent.futures.ThreadPoolExecutor(max_workers=jobs) as ex:
+        for r in ex.map(lambda d: one(d, checks, tier), dirs):
+            print(json.dumps(r), flush=True)
     try:
-        rc, out = sh(["git", "-C", "/repo", "apply", os.path.join(d, "patch.diff")])
-        if rc != 0:
-            print("patch does not apply:", out); return 2
-        rc, out = sh(["go", "test", "-vet=off", "-count=1", "./..."], cwd="/repo")
-        res["suite_passes_with_patch"] = rc == 0
-        if os.path.exists(os.path.join(d, "demo_test.go")):
-            shutil.copy(os.path.join(d, "demo_test.go"), demo)
-            rc, out = sh(["go", "test", "-vet=off", "-count=1", "-run", "TestMutDemo", "."], cwd="/repo")
-            res["demo_fails_with_patch"] = rc != 0
-            os.remove(demo)
-        caught = {}
-        for c in checks:
-            e = dict(ENV, VERIF_TIER=tier)
-            p = subprocess.run(["./check", c, "--tier", tier], cwd="/verif", env=e, stdout=subprocess.PIPE, stderr=subprocess.STDOUT, text=True)
-            v = [l for l in p.stdout.splitlines() if l.startswith("VIOLATION")]
-            caught[c] = {"rc": p.returncode, "violations": len(v), "no_failing_input": any("no-failing-input-found" in l for l in v),
-                         "first": v[0] if v else ""}
-        res["checks"] = caught
-    finally:
-        if os.path.exists(demo):
-            os.remove(demo)
-        sh(["git", "-C", "/repo", "checkout", "--", "."])
-    # demo on the clean tree
-    if os.path.exists(os.path.join(d, "demo_test.go")):
-        shutil.copy(os.path.join(d, "demo_test.go"), demo)
-        rc, out = sh(["go", "test", "-vet=off", "-count=1", "-run", "TestMutDemo", "."], cwd="/repo")
-        res["demo_passes_without_patch"] = rc == 0
-        os.remove(demo)
-    print(json.dumps(res, indent=1))
+        os.rmdir(BASE)
+    except OSError:
+        pass
     return 0
 
 
